@@ -1,1 +1,83 @@
-verus!{}
+verus! {
+
+pub type Idx = Seq<InnerIdxDto>;
+
+/// the in-memory index of one log file: entry j marks record number j*interval; offsets grow
+pub open spec fn idx_wf(ix: Idx, interval: int) -> bool {
+    &&& ix.len() >= 1 && interval > 0
+    &&& forall|j: int| 0 < j < ix.len() ==> #[trigger] ix[j].log_index == ix[j - 1].log_index + interval
+    &&& forall|j: int| 0 < j < ix.len() ==> #[trigger] ix[j].file_index > ix[j - 1].file_index
+    &&& forall|j: int| 0 <= j < ix.len() ==> #[trigger] ix[j].file_index < 0x8000_0000
+}
+pub proof fn lemma_idx_mono(ix: Idx, interval: int, i: int, j: int)
+    requires idx_wf(ix, interval), 0 <= i < j < ix.len()
+    ensures ix[i].log_index < ix[j].log_index, ix[i].file_index < ix[j].file_index
+    decreases j - i
+{
+    if i + 1 < j { lemma_idx_mono(ix, interval, i, j - 1); }
+}
+
+/// what entry j (j >= 1) occupies in the index area: the varint of its FILE-OFFSET delta to entry j-1
+pub open spec fn idx_entry_bytes(ix: Idx, j: int) -> int {
+    enc_len((ix[j].file_index - ix[j - 1].file_index) as nat)
+}
+/// bytes of the index area occupied by the entries p+1 .. len-1
+pub open spec fn idx_bytes_after(ix: Idx, p: int) -> int
+    decreases ix.len() - p
+{
+    if p + 1 >= ix.len() { 0 } else { idx_entry_bytes(ix, p + 1) + idx_bytes_after(ix, p + 1) }
+}
+pub proof fn lemma_idx_bytes_step(ix: Idx, p: int)
+    requires 0 <= p, p + 1 < ix.len()
+    ensures idx_bytes_after(ix, p) == idx_entry_bytes(ix, p + 1) + idx_bytes_after(ix, p + 1),
+        idx_bytes_after(ix, ix.len() - 1) == 0,
+{}
+pub proof fn lemma_idx_bytes_bound(ix: Idx, p: int)
+    requires 0 <= p < ix.len()
+    ensures 0 <= idx_bytes_after(ix, p) <= 10 * (ix.len() - 1 - p)
+    decreases ix.len() - p
+{
+    if p + 1 < ix.len() { lemma_idx_bytes_bound(ix, p + 1); }
+}
+
+// ------------------------------------------------------------------ index area decode (read_indexs)
+/// value `read_varint64_offset(..).unwrap_or(0)` yields at `off`
+pub open spec fn read_at(s: Seq<u8>, off: int) -> nat {
+    if 0 <= off < s.len() && vlen(s.skip(off)) is Some && vlen(s.skip(off)).unwrap() <= 10 && vval(s.skip(off)) <= u64::MAX { vval(s.skip(off)) } else { 0 }
+}
+/// index area written by the store: a varint of at most 10 bytes found at `off` is below 2^32
+pub open spec fn idx_val_ok(s: Seq<u8>, off: int) -> bool {
+    (vlen(s.skip(off)) is Some && vlen(s.skip(off)).unwrap() <= 10) ==> vval(s.skip(off)) < 0x1_0000_0000
+}
+/// deltas decoded from the index area, `next` being the value already read at `off`: stops at a zero delta or past `last_end`
+pub open spec fn dec_from(s: Seq<u8>, off: int, next: nat, last_end: int) -> Seq<nat>
+    decreases s.len() - off
+{
+    if next == 0 || off < 0 || off >= s.len() { seq![] } else {
+        let off2 = off + enc_len(next);
+        if off2 > last_end || off2 <= off || off2 >= s.len() { seq![next] } else { seq![next].add(dec_from(s, off2, read_at(s, off2), last_end)) }
+    }
+}
+/// bytes the deltas occupy (canonical varints)
+pub open spec fn deltas_bytes(d: Seq<nat>) -> int
+    decreases d.len()
+{
+    if d.len() == 0 { 0 } else { deltas_bytes(d.drop_last()) + enc_len(d.last()) }
+}
+/// the in-memory index built from the first entry and the file-offset deltas
+pub open spec fn idx_build(first: InnerIdxDto, interval: int, d: Seq<nat>) -> Seq<InnerIdxDto>
+    decreases d.len()
+{
+    if d.len() == 0 { seq![first] } else {
+        let p = idx_build(first, interval, d.drop_last());
+        p.push(InnerIdxDto { log_index: (p.last().log_index + interval) as u64, file_index: (p.last().file_index + d.last()) as u64 })
+    }
+}
+pub proof fn lemma_idx_build_len(first: InnerIdxDto, interval: int, d: Seq<nat>)
+    ensures idx_build(first, interval, d).len() == d.len() + 1
+    decreases d.len()
+{
+    if d.len() > 0 { lemma_idx_build_len(first, interval, d.drop_last()); }
+}
+
+} // verus!
